@@ -70,7 +70,7 @@ def run(rep, tier, seed, budget):
     t_end = time.time() + total
     api = make_api(ctx)
     FULL = ["set_preset", "set_dict", "set_invalid", "set_wrongtype", "get_mutate", "preset_mutate",
-            "alphabet_mutate", "mutate_passed"]
+            "alphabet_mutate", "mutate_passed", "edit_and_reset"]
 
     def level(K, menu, invalid=None):
         def path(eng, col):
@@ -98,7 +98,7 @@ def run(rep, tier, seed, budget):
     import random
     rnd = random.Random(seed)
     few = sorted(rnd.sample(sorted(hist.INVALID_DICTS), 2) + ["valid_then_invalid"])
-    SMALL = ["set_dict", "set_invalid", "get_mutate", "alphabet_mutate", "mutate_passed"]
+    SMALL = ["set_dict", "set_invalid", "get_mutate", "alphabet_mutate", "mutate_passed", "edit_and_reset"]
     plan = [(1, FULL, None), (2, FULL, None)]
     plan += [(3, SMALL, few)] if quick else [(3, FULL, None), (4, SMALL, few)]
     for K, menu, invalid in plan:
